@@ -25,7 +25,7 @@ import (
 )
 
 var c02mix = []weighted{
-	{"pub", 34}, {"sleep", 16}, {"crash", 8}, {"crashfs", 6}, {"restart", 12}, {"cut", 10}, {"heal", 8}, {"stall", 4}, {"stalll", 3},
+	{"pub", 34}, {"sleep", 16}, {"crash", 8}, {"crashfs", 6}, {"restart", 12}, {"cut", 10}, {"heal", 8}, {"stall", 4}, {"stalll", 3}, {"lagrepl", 3},
 }
 
 // c02Chain builds a failover chain: a follower lags behind while the leadership moves on, catches up
